@@ -17,9 +17,9 @@ tied by the correspondence check.
 
 Hypotheses that appear below and why:
 * `a.length = 4`: a dihedral has four atoms (`_wildcard_dih` indexes `atoms[0..3]`).
-* `"X" ∉ a`: no ATOM TYPE is literally called `X`.  `X` is the wildcard of `[ dihedraltypes ]`; with an
-  atom type of that name the number of `X` in a key no longer counts wildcards.  (The harness generates
-  such atom types too; the specification side handles them and the real code agrees with it there.)
+* no hypothesis on the atom-type NAMES is needed: the theorems hold even when an atom type is literally
+  called `X` (the number of `X` in a key then counts the wildcards plus those atoms; `Proofs/Preprocess.lean`
+  does the counting position by position).  The harness generates such atom types too.
 * symmetry of the returned KEY needs the least-wildcarded matching key to be unique: with two different
   equally specific keys (`X B C D` and `A B C X`) which one wins depends on the direction — GROMACS's
   tie-break is not part of the property.  What holds unconditionally (and is proved): whether a type is
@@ -75,15 +75,19 @@ example : (matchDihedral patterns ["A", "B", "C", "D"] [(["X", "C", "X", "X"], [
 /-- The key the wildcard search returns is a key of the type table, matches the atom types (in the
 listed or in the reverse direction), and NO matching key of the table — in either direction — has fewer
 wildcards. -/
-theorem C09_dihedral_most_specific (t : TypeTable) (a k : Key) (ha : a.length = 4) (hX : "X" ∉ a)
+theorem C09_dihedral_most_specific (t : TypeTable) (a k : Key) (ha : a.length = 4)
     (h : matchDihedral patterns a t = some k) :
     k ∈ t.map (·.1) ∧ matchesEither k a = true ∧
       ∀ k' ∈ t.map (·.1), matchesEither k' a = true → wildcards k ≤ wildcards k' :=
-  matchDihedral_some patterns C09_table_facts t a k ha hX h
+  matchDihedral_some patterns C09_table_facts t a k ha h
 
 example : matchDihedral patterns ["D", "C", "B", "A"]
     [(["X", "X", "C", "D"], []), (["A", "B", "C", "X"], []), (["X", "B", "X", "X"], [])]
     = some ["A", "B", "C", "X"] := by decide
+
+-- an atom type that is itself called `X`
+example : matchDihedral patterns ["X", "B", "C", "D"] [(["X", "X", "X", "D"], []), (["X", "B", "C", "X"], [])]
+    = some ["X", "B", "C", "X"] := by decide
 
 /-- The search fails exactly when no key of the table matches in either direction (so a failure of
 `gen_bonded_interactions` for a dihedral means there really is no applicable type). -/
@@ -101,11 +105,11 @@ def UniqueBest (t : TypeTable) (a : Key) : Prop :=
 /-- Direction independence of the search: whether a type is found and how many wildcards the found key has
 never depends on the listing direction; when the least-wildcarded matching key is unique the SAME key is
 found for `(a,b,c,d)` and `(d,c,b,a)`. -/
-theorem C09_dihedral_search_symmetric (t : TypeTable) (a : Key) (ha : a.length = 4) (hX : "X" ∉ a) :
+theorem C09_dihedral_search_symmetric (t : TypeTable) (a : Key) (ha : a.length = 4) :
     ((matchDihedral patterns a t).isSome = (matchDihedral patterns a.reverse t).isSome) ∧
     (∀ k1 k2, matchDihedral patterns a t = some k1 → matchDihedral patterns a.reverse t = some k2 →
       wildcards k1 = wildcards k2 ∧ (UniqueBest t a → k1 = k2)) :=
-  matchDihedral_symm patterns C09_table_facts t a ha hX
+  matchDihedral_symm patterns C09_table_facts t a ha
 
 theorem keyMatches_self (a : Key) : keyMatches a a = true := by
   simp only [keyMatches, beq_self_eq_true, Bool.true_and]
@@ -116,7 +120,7 @@ theorem keyMatches_self (a : Key) : keyMatches a a = true := by
 /-- The PARAMETERS found for a dihedral listed as `(a,b,c,d)` and as `(d,c,b,a)` are equal (the whole
 lookup of `gen_bonded_interactions`: exact key, reversed key, wildcard search), for every type table in
 which the least-wildcarded matching key is unique. -/
-theorem C09_dihedral_symmetric (t : TypeTable) (a : Key) (ha : a.length = 4) (hX : "X" ∉ a)
+theorem C09_dihedral_symmetric (t : TypeTable) (a : Key) (ha : a.length = 4)
     (hu : UniqueBest t a) :
     lookupType patterns "dihedrals" a t = lookupType patterns "dihedrals" a.reverse t := by
   have hself : matchesEither a a = true := by simp [matchesEither, keyMatches_self]
@@ -140,7 +144,7 @@ theorem C09_dihedral_symmetric (t : TypeTable) (a : Key) (ha : a.length = 4) (hX
     | some e' => rfl
     | none =>
       simp only [beq_self_eq_true, if_true]
-      obtain ⟨hs, hk⟩ := C09_dihedral_search_symmetric t a ha hX
+      obtain ⟨hs, hk⟩ := C09_dihedral_search_symmetric t a ha
       cases m1 : matchDihedral patterns a t with
       | none =>
         cases m2 : matchDihedral patterns a.reverse t with
